@@ -184,7 +184,7 @@ class Scheduler:
             self.in_sched = False
 
     def _point(self, cur, kind, pred, timeout, line):
-        if self.holds and pred is None and not self.killing:
+        if self.holds and not self.killing and not kind.startswith("held:"):
             for h in self.holds:
                 if h[0] == cur.name and h[1] == kind:
                     h[5] += 1
